@@ -1,6 +1,7 @@
 /-! Transaction monitors: `Model.Txn` for C11 (transaction end results are truthful, `txn` scenarios) and
-`Model.Eos` for C10 (GroupTransactSession exactly-once pipelines, `eos` scenarios). `check` returns the rule
-an event breaks. Core Lean only. -/
+`Model.Eos` for C10 (GroupTransactSession exactly-once pipelines, `eos` scenarios), `Model.TxnOffsets` for the
+offsets half of C11 (GroupTransactSession.End commits or does not commit the consumed offsets, `tofs` scenarios).
+`check` returns the rule an event breaks. Core Lean only. -/
 namespace Model.Txn
 
 abbrev Id := Nat
@@ -153,3 +154,177 @@ def run : St → List Ev → Option St
 def accepts (h : List Ev) : Bool := (run {} h).isSome
 
 end Model.Eos
+
+namespace Model.TxnOffsets
+
+/-! The offsets half of C11, `tofs` scenarios: GroupTransactSession members consume an input topic; each
+transaction `t` polls some records (and so *sets out to commit* offset `last polled + 1` on every partition it
+polled from: the `want` events), produces zero or more output records, and calls End. Right after End returns the
+harness reads the group's committed offsets with a separate plain client (`observe`, one event per input
+partition; `-1` = no committed offset) and the coordinator's state for the transactional id (`coord`).
+
+Rules, from the property text:
+* End reported a successful commit of `t` ⇒ the offsets observed right after it are, on every partition `t` polled
+  from, at least what `t` set out to commit (exactly that when the scenario has a single member), and the
+  coordinator has no open transaction for the id;
+* an observed committed offset is always one that a transaction whose End *reported a successful commit* set out to
+  commit (or `-1`): never the offset of a transaction whose End reported an abort or an error, or that the client
+  never ended — also not later, through another transaction's commit. (With several members, a transaction whose
+  End(TryCommit) call is in progress on another member when the observation is logged also counts.)
+  An End(TryCommit) that reported an error after the broker handled one of its EndTxn(commit) requests and the
+  response was lost is the listed finding `C11.unconfirmed-commit-took-effect`;
+* single member: End reported an abort or an error ⇒ the observed offsets are those of the previous observation;
+* the output records follow the rules of `Model.Txn` (visible only if End reported a successful commit; every
+  acknowledged record of such a transaction visible at the end). -/
+
+abbrev Id := Nat
+
+inductive Res where
+  | committed | aborted | error
+deriving DecidableEq, Repr
+
+inductive Ev where
+  | memberStart (m slot : Nat)
+  | memberStop (m : Nat)
+  | memberKill (m t : Nat)                        -- the member was closed inside transaction t without calling End (a crash/restart)
+  | begin_ (m t : Nat) (ok : Bool)
+  | want (t part : Nat) (off : Int)               -- t polled from `part`; it sets out to commit `off` = last polled offset + 1
+  | produce (t : Nat) (id : Id)
+  | promise (id : Id) (ok : Bool)
+  | endStart (m t : Nat) (commit : Bool)
+  | endDone (m t : Nat) (res : Res)
+  | retry (m t : Nat) (res : Res)                 -- the application retried End(TryAbort) after End reported an error
+  | observe (m t part : Nat) (off : Int)          -- group committed offset of `part` read right after the End (or retry) of t returned
+  | coord (m t : Nat) (isOpen : Bool)             -- the coordinator's state of the transactional id right after End returned
+  | fault (key act t : Nat) (commit : Bool)       -- fault on a request of transaction t; act 2 = handled, response dropped; commit = the request is EndTxn(commit)
+  | final (part : Nat) (off : Int)                -- group committed offset at the end of the scenario
+  | output (part off : Nat) (id : Id)             -- read_committed view of the output topic at the end
+  | incomplete
+  | quiesce
+deriving DecidableEq, Repr
+
+structure St where
+  single : Bool := false                          -- the scenario has one member slot (transactions are sequential)
+  wants : List (Nat × Nat × Int) := []            -- (t, part, off)
+  started : List (Nat × Bool) := []               -- (t, commit requested): End was called
+  ending : List Nat := []                         -- End(TryCommit) calls in progress
+  results : List (Nat × Res) := []
+  lostEnd : List Nat := []                        -- an EndTxn(commit) of the End call was handled by the broker, its response lost
+  obs : List (Nat × Nat × Int) := []              -- observations (t, part, off) made right after the End of t, newest first
+  recs : List (Id × Nat) := []                    -- (id, t)
+  acked : List Id := []
+  vis : List Id := []
+  incomplete : Bool := false
+  quiet : Bool := false
+deriving Repr
+
+def resultOf (s : St) (t : Nat) : Option Res := (s.results.find? (·.1 == t)).map (·.2)
+def wantOf (s : St) (t part : Nat) : Option Int := (s.wants.find? (fun w => w.1 == t && w.2.1 == part)).map (·.2.2)
+def txnOf (s : St) (id : Id) : Option Nat := (s.recs.find? (·.1 == id)).map (·.2)
+/-- the most recent observation of `part` (`-1`: never observed, nothing is committed at the start) -/
+def lastOf (s : St) (part : Nat) : Int := match s.obs.find? (·.2.1 == part) with | some x => x.2.2 | none => -1
+
+/-- may the offsets of `t` be committed, as far as the history so far tells: End reported a successful commit, or
+(several members only) an End(TryCommit) of `t` is in progress and has not reported yet -/
+def mayCommit (s : St) (t : Nat) : Bool :=
+  resultOf s t == some .committed || (!s.single && s.ending.contains t && resultOf s t == none)
+
+/-- the committed offset `off` of `part` is explained by the history so far -/
+def justified (s : St) (part : Nat) (off : Int) : Bool :=
+  off == -1 || s.wants.any (fun w => w.2.1 == part && w.2.2 == off && mayCommit s w.1)
+
+/-- the key under which an unexplained committed offset is refused: by the kind of transaction that set out to commit it -/
+def classKey (s : St) (part : Nat) (off : Int) : String :=
+  let ts := (s.wants.filter (fun w => w.2.1 == part && w.2.2 == off)).map (·.1)
+  if ts.any (fun t => resultOf s t == some .error && s.lostEnd.contains t) then "C11.unconfirmed-commit-took-effect"
+  else if ts.any (fun t => resultOf s t == some .aborted) then "C11.aborted-transaction-offsets-committed"
+  else if ts.any (fun t => resultOf s t == some .error) then "C11.failed-commit-offsets-committed"
+  else if ts.isEmpty then "C11.observed-offset-never-requested"
+  else "C11.unended-transaction-offsets-committed"
+
+def check (s : St) : Ev → Option String
+  | .memberStart _ _ => none
+  | .memberStop _ => none
+  | .memberKill _ _ => none
+  | .begin_ _ _ _ => none
+  | .want t part _ =>
+    if s.started.any (·.1 == t) then some "C11.harness-want-after-end"
+    else if s.wants.any (fun w => w.1 == t && w.2.1 == part) then some "C11.harness-want-twice" else none
+  | .produce _ id => if s.recs.any (·.1 == id) then some "C11.harness-id-reused" else none
+  | .promise id _ => if s.recs.any (·.1 == id) then none else some "C11.promise-for-unknown-record"
+  | .endStart _ t _ => if s.started.any (·.1 == t) then some "C11.harness-transaction-ended-twice" else none
+  | .endDone _ t res =>
+    if s.results.any (·.1 == t) then some "C11.harness-transaction-ended-twice"
+    else match s.started.find? (·.1 == t) with
+      | none => some "C11.harness-end-result-without-call"
+      | some (_, commit) => if res == .committed && !commit then some "C11.commit-reported-for-abort-request" else none
+  | .retry _ _ _ => none
+  | .observe _ t part off =>
+    -- an observed committed offset was set by a transaction whose End reported a successful commit
+    if !justified s part off then some (classKey s part off)
+    else match resultOf s t with
+      | none => some "C11.harness-observation-without-result"
+      -- End reported a successful commit: the offsets the transaction set out to commit are committed
+      | some .committed =>
+        (match wantOf s t part with
+         | none => none
+         | some w => if off < w then some "C11.committed-offsets-not-committed"
+                     else if s.single && off != w then some "C11.committed-offsets-differ" else none)
+      -- End reported an abort / an error: the committed offsets are unchanged (single member: nobody else commits)
+      | some .aborted => if s.single && off != lastOf s part then some "C11.aborted-transaction-changed-offsets" else none
+      | some .error => if s.single && off != lastOf s part then some "C11.failed-commit-changed-offsets" else none
+  | .coord _ t isOpen =>
+    match resultOf s t with
+    | none => some "C11.harness-observation-without-result"
+    -- End reported a successful commit: the coordinator has no open transaction for the id
+    | some r => if isOpen && r == .committed then some "C11.committed-end-left-transaction-open" else none
+  | .fault _ _ _ _ => none
+  | .final part off => if !justified s part off then some (classKey s part off) else none
+  | .output _ _ id =>
+    match txnOf s id with
+    | none => some "C11.visible-record-never-produced"
+    | some t =>
+      if s.vis.contains id then some "C11.record-visible-twice"
+      else match resultOf s t with
+        | some .committed => none
+        | some .aborted => some "C11.aborted-transaction-record-visible"
+        | some .error => if s.lostEnd.contains t then some "C11.unconfirmed-commit-took-effect" else some "C11.failed-commit-record-visible"
+        | none => some "C11.unended-transaction-record-visible"
+  | .incomplete => none
+  | .quiesce =>
+    if s.incomplete then none
+    else if s.recs.any (fun r => s.acked.contains r.1 && resultOf s r.2 == some .committed && !s.vis.contains r.1) then
+      some "C11.committed-record-not-visible"
+    -- every transaction whose End reported a successful commit was observed on every partition it polled from
+    else if s.wants.any (fun w => resultOf s w.1 == some .committed && !s.obs.any (fun o => o.1 == w.1 && o.2.1 == w.2.1)) then
+      some "C11.harness-committed-transaction-not-observed"
+    else none
+
+def apply (s : St) : Ev → St
+  | .memberStart _ _ => s
+  | .memberStop _ => s
+  | .memberKill _ _ => s
+  | .begin_ _ _ _ => s
+  | .want t part off => { s with wants := (t, part, off) :: s.wants }
+  | .produce t id => { s with recs := (id, t) :: s.recs }
+  | .promise id ok => if ok then { s with acked := id :: s.acked } else s
+  | .endStart _ t commit => { s with started := (t, commit) :: s.started, ending := if commit then t :: s.ending else s.ending }
+  | .endDone _ t res => { s with results := (t, res) :: s.results, ending := s.ending.filter (· != t) }
+  | .retry _ _ _ => s
+  | .observe _ t part off => { s with obs := (t, part, off) :: s.obs }
+  | .coord _ _ _ => s
+  | .fault key act t commit =>
+    if key == 26 && act == 2 && commit && s.ending.contains t then { s with lostEnd := t :: s.lostEnd } else s
+  | .final _ _ => s
+  | .output _ _ id => { s with vis := id :: s.vis }
+  | .incomplete => { s with incomplete := true }
+  | .quiesce => { s with quiet := true }
+
+def step (s : St) (e : Ev) : Option St := match check s e with | none => some (apply s e) | some _ => none
+def run : St → List Ev → Option St
+  | s, [] => some s
+  | s, e :: es => match step s e with | some s' => run s' es | none => none
+/-- `single` = the scenario has one member slot -/
+def accepts (single : Bool) (h : List Ev) : Bool := (run { single := single } h).isSome
+
+end Model.TxnOffsets
